@@ -23,3 +23,16 @@ var _ *imapserver.FetchWriter
 //@   captures (mbox *MailboxView)
 //@   requires mbox != nil && imapserver.TrackerWF(mbox.tracker)
 //@   callsite FetchWriter.CreateMessage(fw *imapserver.FetchWriter, n uint32) requires n != 0
+
+// SEARCH results only contain sequence numbers the client knows.
+//
+//@ func (mbox *MailboxView) Search(numKind imapserver.NumKind, criteria *imap.SearchCriteria, options *imap.SearchOptions) (data *imap.SearchData, err error)
+//@   props C08:callsite,pre@call
+//@   requires mbox != nil && imapserver.TrackerWF(mbox.tracker)
+//@   callsite SeqSet.AddNum(s *imap.SeqSet, nums []uint32) requires forall k int :: 0 <= k && k < len(nums) ==> nums[k] != 0
+
+// MOVE reports each removed message with EXPUNGE.
+//
+//@ func (sess *UserSession) Move(w *imapserver.MoveWriter, numSet imap.NumSet, destName string) (err error)
+//@   props C08:callsite
+//@   callsite MoveWriter.WriteExpunge(mw *imapserver.MoveWriter, n uint32) requires n != 0
